@@ -624,6 +624,52 @@ theorem validator_inherit_fresh_cache :
     FactsC11.validatorInheritFreshCache = true ∧ FactsC11.validatorBasicAuthNotFresh = [] ∧
       FactsC11.filterKindTouchesPrev.lookup "Validator" = some false := by decide
 
+/-! ### Pipeline-level resilience policies: requests after an update run under the NEW policy -/
+
+/-- **For every history of pipeline updates** the policy injected into the running filter instance is
+the policy of the last applied spec (the initial one if there was no update) — whether or not the
+filter's own spec changed. -/
+theorem policy_is_last_applied (g0 : PGen) (gs : List PGen) :
+    (pRun false (pInit g0) gs).injected = ((g0 :: gs).getLast (by simp)).policy ∧
+      (pRun false (pInit g0) gs).filterSpec = ((g0 :: gs).getLast (by simp)).filterSpec := by
+  induction gs generalizing g0 with
+  | nil => simp [pRun, pInit]
+  | cons g rest ih =>
+    have : pStep false (pInit g0) g = pInit g := by simp [pStep, pInit]
+    simp only [pRun, this]
+    have h := ih g
+    simpa [List.getLast_cons] using h
+
+/-- … and so is every entry of the trace the `resilience` judge compares the observed call counts with:
+after step `i` the policy in force is the `i`-th spec's. -/
+theorem policy_trace_is_spec_trace (g0 : PGen) (gs : List PGen) :
+    pTrace false (pInit g0) gs = (g0 :: gs).map (·.policy) := by
+  induction gs generalizing g0 with
+  | nil => simp [pTrace, pInit]
+  | cons g rest ih =>
+    have : pStep false (pInit g0) g = pInit g := by simp [pStep, pInit]
+    show (pInit g0).injected :: pTrace false (pStep false (pInit g0) g) rest = _
+    rw [this, ih g]
+    simp [pInit]
+
+/-- Contrast (seeded change C11-m5, replayed on the real code by the `resilience` harness): if a filter
+whose own spec is unchanged keeps its running instance, an update that changes only the policy's
+parameter (Retry maxAttempts 1 → 3) is stored but never takes effect; an update that also touches the
+filter spec does. -/
+theorem reused_instance_keeps_old_policy :
+    (pRun true (pInit ⟨0, 1⟩) [⟨0, 3⟩]).injected = 1 ∧ (pRun false (pInit ⟨0, 1⟩) [⟨0, 3⟩]).injected = 3 ∧
+      (pRun true (pInit ⟨0, 1⟩) [⟨1, 3⟩]).injected = 3 ∧
+      pTrace true (pInit ⟨0, 1⟩) [⟨0, 3⟩, ⟨0, 2⟩] = [1, 1, 1] ∧ pTrace false (pInit ⟨0, 1⟩) [⟨0, 3⟩, ⟨0, 2⟩] = [1, 3, 2] ∧
+      policyCalls false 3 0 = 3 ∧ (List.range 4).map (policyCalls true 2) = [1, 1, 0, 0] := by decide
+
+open EgVerif.Gen in
+/-- Regenerated shape of `Pipeline.reload`: every filter stored into the new generation is a fresh
+`filters.Create(spec)` instance, `InjectResiliencePolicy(p.resilience)` is called on it in the same
+loop, and nothing of the previous generation is used except through nil tests, `getFilter` and the
+argument of the new filter's `Inherit` (the `reuse = false` of the model). -/
+theorem pipeline_reload_injects_every_filter :
+    FactsC11.pipelineReloadInjectsEveryFilter = true ∧ FactsC11.pipelineReloadPrevLeaks = [] := by decide
+
 /-! ## Regenerated facts (the tie for the atomicity assumptions of Part 1 and the kind list of Part 3) -/
 
 open EgVerif.Gen in
